@@ -101,9 +101,13 @@ theorem r_d1_is_derivative (t : RT ℝ) (hs : t.scale = 1) :
     rw [hd]
     exact h.add_const t.bound
 
-/-- `getSecondOrderDerivative` is the derivative of `getFirstOrderDerivative` away from the junction
-of the two pieces -/
-theorem r_d2_is_derivative (t : RT ℝ) (hs : t.scale = 1) (hx : t.x ≠ 0) :
+/-- Full statement (clause "second derivative agrees with finite differences of the first"):
+`HasDerivAt (fun x => (t.at x).d1) t.d2 t.x` for every coordinate.  It is **false at the junction
+`x = 0`** of the two pieces (`r_d2_not_derivative_at_junction`), a coordinate ordinary inputs reach
+(`[a,+inf[` with the value `a + 1`).  Proved here: everywhere else.  What holds at every coordinate,
+the junction included, is `r_d2_is_right_derivative`; the left slope at the junction is
+`r_d2_left_derivative_at_junction`. -/
+theorem r_d2_is_derivative_partial (t : RT ℝ) (hs : t.scale = 1) (hx : t.x ≠ 0) :
     HasDerivAt (fun x => (t.at x).d1) t.d2 t.x := by
   have h := RT.gp'_hasDerivAt t.x hx
   rw [RT.d2_real, hs]
@@ -125,7 +129,52 @@ theorem r_d2_is_derivative (t : RT ℝ) (hs : t.scale = 1) (hx : t.x ≠ 0) :
     rw [hd]
     exact h
 
-/-- the hypothesis `x ≠ 0` of `r_d2_is_derivative` is forced: the transform is C¹ but not C² at the
+/-- At **every** coordinate, the junction included, `getSecondOrderDerivative` is the *right*
+derivative of `getFirstOrderDerivative` (this is what the code guarantees: at `x = 0` it returns the
+slope of the linear piece, `0`). -/
+theorem r_d2_is_right_derivative (t : RT ℝ) (hs : t.scale = 1) :
+    HasDerivWithinAt (fun x => (t.at x).d1) t.d2 (Set.Ici t.x) t.x := by
+  have h := RT.gp'_hasDerivWithinAt_Ici t.x
+  rw [RT.d2_real, hs]
+  cases hp : t.positive <;> simp only [if_true, if_false, Bool.false_eq_true]
+  · have e : (fun x => (t.at x).d1) = fun x => -RT.gp' x := by
+      funext x; rw [RT.d1_real]; simp only [RT.at_positive, RT.at_scale, RT.at_x, hp, hs, RT.gp']
+      simp only [if_false, Bool.false_eq_true]; split_ifs <;> ring
+    rw [e]
+    have hd : (if t.x < 0 then -Real.exp t.x / 1 else 0) = -RT.gp'' t.x := by
+      unfold RT.gp''; split_ifs <;> ring
+    rw [hd]
+    exact h.neg
+  · have e : (fun x => (t.at x).d1) = fun x => RT.gp' x := by
+      funext x; rw [RT.d1_real]; simp only [RT.at_positive, RT.at_scale, RT.at_x, hp, hs, RT.gp']
+      simp only [if_true]; split_ifs <;> ring
+    rw [e]
+    have hd : (if t.x < 0 then Real.exp t.x / 1 else 0) = RT.gp'' t.x := by
+      unfold RT.gp''; split_ifs <;> ring
+    rw [hd]
+    exact h
+
+/-- ... and at the junction the *left* derivative of `getFirstOrderDerivative` is `1` (`-1` for the
+mirror image), not the `0` that `getSecondOrderDerivative` returns there: a symmetric finite
+difference of the first derivative tends to `±1/2`. -/
+theorem r_d2_left_derivative_at_junction (t : RT ℝ) (hs : t.scale = 1) :
+    HasDerivWithinAt (fun x => (t.at x).d1) (if t.positive then 1 else -1) (Set.Iic 0) 0 ∧
+    (t.at 0).d2 = 0 := by
+  refine ⟨?_, by rw [RT.d2_real]; simp⟩
+  have h := RT.gp'_left_at_zero
+  cases hp : t.positive <;> simp only [if_true, if_false, Bool.false_eq_true]
+  · have e : (fun x => (t.at x).d1) = fun x => -RT.gp' x := by
+      funext x; rw [RT.d1_real]; simp only [RT.at_positive, RT.at_scale, RT.at_x, hp, hs, RT.gp']
+      simp only [if_false, Bool.false_eq_true]; split_ifs <;> ring
+    rw [e]
+    exact h.neg
+  · have e : (fun x => (t.at x).d1) = fun x => RT.gp' x := by
+      funext x; rw [RT.d1_real]; simp only [RT.at_positive, RT.at_scale, RT.at_x, hp, hs, RT.gp']
+      simp only [if_true]; split_ifs <;> ring
+    rw [e]
+    exact h
+
+/-- the hypothesis `x ≠ 0` of `r_d2_is_derivative_partial` is forced: the transform is C¹ but not C² at the
 junction (left slope of `d1` is 1, right slope 0) -/
 theorem r_d2_not_derivative_at_junction (t : RT ℝ) (hs : t.scale = 1) :
     ¬ DifferentiableAt ℝ (fun x => (t.at x).d1) 0 := by
@@ -388,7 +437,10 @@ theorem interval_strict_mono_tan_lib_partial (t : IT ℝ) (hh : t.hyper = false)
     IT.getOriginal_at_tan libPI t hh hb libPI_pos y (arctan_abs_lt_libPI_half hy)]
   exact IT.gt_strictMono _ _ _ _ libPI_pos hs hb hxy
 
-/-- hyperbolic variant: `getFirstOrderDerivative` is the derivative of the back-transformation -/
+/-- hyperbolic variant: `getFirstOrderDerivative` is the derivative of the back-transformation 
+(`_hs`, and `_hs` / `_hpi` in the following derivative theorems, are not needed by the proofs — at scale 0
+the statement would be about Lean's `x / 0 = 0` — and are kept to restrict the theorems to the
+meaningful domain; every caller has `0 < scale`, `TPWF`.) -/
 theorem interval_d1_is_derivative_hyper (pi : ℝ) (t : IT ℝ) (hh : t.hyper = true) (_hs : t.scale ≠ 0)
     (hb : t.lo < t.hi) : HasDerivAt (fun x => IT.getOriginal pi (t.at x)) (IT.d1 pi t) t.x := by
   have e : (fun x => IT.getOriginal pi (t.at x)) = IT.gh t.scale t.lo t.hi := by
